@@ -111,6 +111,10 @@ type Spec struct {
 	Opts     []Opt    `json:"opts,omitempty"`        // leftmost / rightmost-non-private
 	Ranges   []string `json:"ranges,omitempty"`      // trusted range: addresses and CIDR blocks
 	RangeErr bool     `json:"range_error,omitempty"` // trusted range: the range provider fails
+	// NetForm: how the range provider spells its IPv4 networks as net.IPNet values, all of which net.IPNet.Contains treats alike:
+	// 0 = as AddressesAndRangesToIPNets returns them, 1 = 16-byte address with a 4-byte mask (net.IPv4 + net.CIDRMask(n, 32)),
+	// 2 = 4-byte address with a 16-byte mask.
+	NetForm int `json:"net_form,omitempty"`
 	Subs     []Spec   `json:"subs,omitempty"`        // chain
 }
 
@@ -424,6 +428,19 @@ func buildResolver(s Spec) (fox.ClientIPResolver, error) {
 		nets, err := clientip.AddressesAndRangesToIPNets(s.Ranges...)
 		if err != nil {
 			return nil, fmt.Errorf("AddressesAndRangesToIPNets(%q): %v", s.Ranges, err)
+		}
+		for i := range nets {
+			ip4 := nets[i].IP.To4()
+			ones, bits := nets[i].Mask.Size()
+			if ip4 == nil || bits != 32 {
+				continue
+			}
+			switch s.NetForm {
+			case 1:
+				nets[i] = net.IPNet{IP: ip4.To16(), Mask: net.CIDRMask(ones, 32)}
+			case 2:
+				nets[i] = net.IPNet{IP: ip4, Mask: net.CIDRMask(96+ones, 128)}
+			}
 		}
 		return clientip.NewRightmostTrustedRange(key, clientip.TrustedIPRangeFunc(func() ([]net.IPNet, error) { return nets, nil }))
 	}
@@ -1208,6 +1225,7 @@ func genSpec(t *rapid.T, c *Case, kinds []string) Spec {
 				s.RangeErr = true
 			} else {
 				s.Ranges = genRanges(t, flatten(c.hdr(s.Header)))
+				s.NetForm = gen.Pick(t, []int{0, 0, 1, 2}, "netform")
 			}
 		}
 	}
